@@ -327,7 +327,7 @@ def shard(seed, idx, n, tier):
         # a step that asks for two functionaries and gets: two agreeing links of ONE gpg functionary (two of its subkeys)
         # and a link another functionary recorded for another step (family shared with C08) - one functionary, not two
         from harness.props import c08
-        c08.one_case(core.rng_for(seed, "c08-shared", idx), res, force="replay_plus_two_subkey_links" if idx % 2 == 0 else "double_replay")
+        c08.one_case(core.rng_for(seed, "c08-shared", idx), res, force=["replay_plus_two_subkey_links", "double_replay", "failing_sublayout_plus_two_subkey_links"][idx % 3])
         res.count("family_replay_and_subkeys")
     if not W.gpg_available():
         res.notes.append("gpg not available: gpg families skipped")
